@@ -8,6 +8,7 @@
 //! * `sup`   — supervisor: run cases in child worker processes so that aborts, stack overflows and
 //!             hangs are data too.
 
+pub mod gen;
 pub mod guard;
 pub mod io;
 pub mod rng;
